@@ -563,62 +563,7 @@ func checkC06(c *Check) {
 		c.Hold("R1b", "msgpipelineDelivery:block-registry", rb.FI.Decl.Pos(), msg == "", msg)
 	}
 
-	// ---- R4 replay before publish
-	c.Rule("R4", "checkStates publishes a lazily created check state only after its replay of the earlier stages succeeded", 1)
-	if r := c.need("R4", pipelineRel, "checkRunner", "checkStates"); r != nil {
-		info := r.Info
-		publish := r.Assigns(func(l, _ ast.Expr) bool {
-			ix, ok := ast.Unparen(l).(*ast.IndexExpr)
-			return ok && isField(info, ix.X, "checkRunner", "states")
-		})
-		replays := r.Calls(calling("~/" + pipelineRel + ".checkRunner.runAndMergeResults"))
-		msg := ""
-		if len(publish) == 0 {
-			msg = "new check states are never published"
-		}
-		if len(replays) < 2 {
-			msg = "undecided: expected replay of connection/sender and of earlier recipients"
-		}
-		for _, pb := range publish {
-			if path, f := r.F.Reach(Query{From: []Pt{pb}, Target: isPt(replays)}); f {
-				msg = "a new check state is registered before its replay of earlier stages ran: if the replay rejects, the state stays registered and the next recipient of that block skips the replay (the reject is lost, the check never sees the sender): " + r.F.Describe(path)
-			}
-		}
-		// a failed replay never reaches the publish
-		for _, rp := range replays {
-			call := r.CallAt(rp, calling("~/"+pipelineRel+".checkRunner.runAndMergeResults"))
-			if found, w, decided := r.OnErr(rp, call, false, isPt(publish), nil); decided && found {
-				msg = "states are published although their replay failed: " + w
-			} else if !decided {
-				msg = "the result of a replay is dropped"
-			}
-		}
-		// with recipients already checked in this transaction, a lazily created state replays them before it is published
-		var rcptReplay []Pt
-		for _, l := range elemLoops(info, r.FI.Decl.Body, func(e ast.Expr) bool { return isField(info, e, "checkRunner", "checkedRcpts") }) {
-			for _, rp := range replays {
-				if n := rp.Node(); n != nil && within(l.Body, n) && l.Whole {
-					rcptReplay = append(rcptReplay, r.F.LoopDone(l)...)
-				}
-			}
-		}
-		if msg == "" {
-			if len(rcptReplay) == 0 {
-				msg = "the recipients already accepted in this transaction are not replayed to a lazily created check state"
-			} else {
-				w := r.F.World(func(atom ast.Expr) (bool, bool) {
-					if sx, ok := lenZeroEdge(info, atom); ok && mentionsField(info, atom, "checkedRcpts") {
-						return sx != 0, true // recipients were checked before
-					}
-					return false, false
-				})
-				if path, f := r.F.Reach(Query{From: r.Entry(), Inclusive: true, Target: isPt(publish), Avoid: isPt(rcptReplay), AvoidEdge: w}); f {
-					msg = "with recipients already checked, a new check state is published without having seen them (a per-recipient verdict of that check is never produced for the earlier recipients): " + r.F.Describe(path)
-				}
-			}
-		}
-		c.Hold("R4", "checkStates:replay-before-publish", r.FI.Decl.Pos(), msg == "", msg)
-	}
+	c06Replay(c)
 	c06StageMemory(c)
 	c06MetadataIdentity(c)
 }
@@ -752,5 +697,72 @@ func c06MetadataIdentity(c *Check) {
 	})
 	if n == 0 {
 		c.Fail("R5", "targets", token.NoPos, "undecided: no implementation of DeliveryTarget.Start found")
+	}
+}
+
+// c06ReplayOnly: the replay rules alone (evaluated by C15 as well)
+func c06ReplayOnly(c *Check) {
+	c06Replay(c)
+	c06StageMemory(c)
+}
+
+func c06Replay(c *Check) {
+	p := c.P
+	_ = p
+	// ---- R4 replay before publish
+	c.Rule("R4", "checkStates publishes a lazily created check state only after its replay of the earlier stages succeeded", 1)
+	if r := c.need("R4", pipelineRel, "checkRunner", "checkStates"); r != nil {
+		info := r.Info
+		publish := r.Assigns(func(l, _ ast.Expr) bool {
+			ix, ok := ast.Unparen(l).(*ast.IndexExpr)
+			return ok && isField(info, ix.X, "checkRunner", "states")
+		})
+		replays := r.Calls(calling("~/" + pipelineRel + ".checkRunner.runAndMergeResults"))
+		msg := ""
+		if len(publish) == 0 {
+			msg = "new check states are never published"
+		}
+		if len(replays) < 2 {
+			msg = "undecided: expected replay of connection/sender and of earlier recipients"
+		}
+		for _, pb := range publish {
+			if path, f := r.F.Reach(Query{From: []Pt{pb}, Target: isPt(replays)}); f {
+				msg = "a new check state is registered before its replay of earlier stages ran: if the replay rejects, the state stays registered and the next recipient of that block skips the replay (the reject is lost, the check never sees the sender): " + r.F.Describe(path)
+			}
+		}
+		// a failed replay never reaches the publish
+		for _, rp := range replays {
+			call := r.CallAt(rp, calling("~/"+pipelineRel+".checkRunner.runAndMergeResults"))
+			if found, w, decided := r.OnErr(rp, call, false, isPt(publish), nil); decided && found {
+				msg = "states are published although their replay failed: " + w
+			} else if !decided {
+				msg = "the result of a replay is dropped"
+			}
+		}
+		// with recipients already checked in this transaction, a lazily created state replays them before it is published
+		var rcptReplay []Pt
+		for _, l := range elemLoops(info, r.FI.Decl.Body, func(e ast.Expr) bool { return isField(info, e, "checkRunner", "checkedRcpts") }) {
+			for _, rp := range replays {
+				if n := rp.Node(); n != nil && within(l.Body, n) && l.Whole {
+					rcptReplay = append(rcptReplay, r.F.LoopDone(l)...)
+				}
+			}
+		}
+		if msg == "" {
+			if len(rcptReplay) == 0 {
+				msg = "the recipients already accepted in this transaction are not replayed to a lazily created check state"
+			} else {
+				w := r.F.World(func(atom ast.Expr) (bool, bool) {
+					if sx, ok := lenZeroEdge(info, atom); ok && mentionsField(info, atom, "checkedRcpts") {
+						return sx != 0, true // recipients were checked before
+					}
+					return false, false
+				})
+				if path, f := r.F.Reach(Query{From: r.Entry(), Inclusive: true, Target: isPt(publish), Avoid: isPt(rcptReplay), AvoidEdge: w}); f {
+					msg = "with recipients already checked, a new check state is published without having seen them (a per-recipient verdict of that check is never produced for the earlier recipients): " + r.F.Describe(path)
+				}
+			}
+		}
+		c.Hold("R4", "checkStates:replay-before-publish", r.FI.Decl.Pos(), msg == "", msg)
 	}
 }
